@@ -585,7 +585,7 @@ def stepProvCore (d : ProvDrv) (a : Acc) (s : Step) : ProvDrv × Acc :=
     let a := a.spec s.lineNo "C07.punished-per-settings" (Spec.C07.punishedPerSettings x st.stk unb st.now e ok effs) s!"{o.get "effects"}"
     let a := a.spec s.lineNo "C07.frame" (Spec.C07.frame x e ok st.stk stkA) s!"before={before.g.get "stk"} after={after.g.get "stk"}"
     let a := a.spec s.lineNo "C07.tombstoned-never-again" (Spec.C07.tombstonedNeverAgain st.stk effs)
-    let a := a.spec s.lineNo "C07.rejected-changes-nothing" (ok || (after.cs.all fun e2 => e2.2 == (before.cfields e2.1)))
+    let a := (a.spec s.lineNo "C07.rejected-changes-nothing" (ok || (after.cs.all fun e2 => e2.2 == (before.cfields e2.1)))).spec s.lineNo "C07.consumer-records-untouched" (after.cs.all fun e2 => e2.2 == (before.cfields e2.1))
     let a := a.spec s.lineNo "C07.valid-is-punished" (Spec.C07.validIsPunished x st.stk e ok) s!"{repr e}"
     let a := if ok then { (a.tag "dvote-accepted") with nontrivial := a.nontrivial + 1 }
              else if Spec.C07.validFor x e then a.tag "dvote-valid-but-unpunishable"
@@ -621,7 +621,7 @@ def stepProvCore (d : ProvDrv) (a : Acc) (s : Step) : ProvDrv × Acc :=
     let a := a.spec s.lineNo "C07.misb-per-settings" (Spec.C07.misbPerSettings x ok effs) s!"{o.get "effects"}"
     let a := a.spec s.lineNo "C07.misb-frame" (Spec.C07.misbFrame ok effs st.stk stkA) s!"before={before.g.get "stk"} after={after.g.get "stk"}"
     let a := a.spec s.lineNo "C07.tombstoned-never-again" (Spec.C07.tombstonedNeverAgain st.stk effs)
-    let a := a.spec s.lineNo "C07.rejected-changes-nothing" (ok || (after.cs.all fun e2 => e2.2 == (before.cfields e2.1)))
+    let a := (a.spec s.lineNo "C07.rejected-changes-nothing" (ok || (after.cs.all fun e2 => e2.2 == (before.cfields e2.1)))).spec s.lineNo "C07.consumer-records-untouched" (after.cs.all fun e2 => e2.2 == (before.cfields e2.1))
     let a := if ok then { (a.tag "misb-accepted") with nontrivial := a.nontrivial + 1 }
              else if !Equiv.misbBasicOK m then a.tag "misb-rejected-basic"
              else if !Equiv.checkMisb x env m then a.tag "misb-rejected-check"
